@@ -2,7 +2,7 @@
    proofs are in theories/C13_*proofs.v.  [verify] (jws.Verify) is arbitrary.
    exec verify (init skip) evs = the state after ANY list of events
    (Arrive / Run / RunCtx / Cancel / FetchReturns / Commit), enabled or not. *)
-From OIDC Require Import Lib C13_RemoteKeys C13_proofs C13_thm_proofs C13_isolation_proofs C13_spec C13_model_proofs C13_examples.
+From OIDC Require Import Lib C13_RemoteKeys C13_proofs C13_thm_proofs C13_isolation_proofs C13_spec C13_model_proofs C13_outage_proofs C13_examples.
 
 (* A call finishes Ok only with a key k that FindMatchingKey selects from a key set
    the endpoint really served - the cache the call read or the body of the download it
@@ -94,11 +94,33 @@ Print Assumptions C13_failure_keeps_cache.
    the cache; this is not a lost cache). *)
 Theorem C13_failed_or_malformed :
   parse TransportErr = None /\ (forall b, parse (Http false b) = None) /\
-  (forall ok, parse (Http ok BadDoc) = None) /\
+  (forall ok why, parse (Http ok (BadDoc why)) = None) /\
   (forall es, parse (Http true (Doc es)) = Some (keep es)) /\
-  parse (Http true (Doc [])) = Some [] /\ (forall n, parse (Http true (Doc (repeat None n))) = Some []).
+  parse (Http true (Doc [])) = Some [] /\ (forall n, parse (Http true (Doc (repeat None n))) = Some []) /\
+  (forall r ks, parse r = Some ks <-> exists es, r = Http true (Doc es) /\ ks = keep es).
 Proof. exact parse_kinds. Qed.
 Print Assumptions C13_failed_or_malformed.
+
+(* A JWKS outage.  From any reachable state in which no well-answered download is still
+   waiting to be stored: however long the schedule goes on and however many downloads end -
+   as long as each of them FAILED (transport error, non-200, any malformed 200 body: empty,
+   blank, null, {}, [], truncated, trailing bytes, "keys" missing / null / not an array,
+   unreadable) - the cache is exactly what it was, and a token the cache answered then
+   (e.g. one the uniquely matching cached key verifies) gets the same answer at its first
+   step, with no new request, leaving the cache as it was. *)
+Theorem C13_outage_keeps_cached_keys : forall verify skip evs evs',
+  let w := exec verify (init skip) evs in
+  no_good_pending w -> all_fail evs' ->
+  let w2 := exec verify w evs' in
+  w_cache w2 = w_cache w /\
+  (forall tok res, cached_try verify (w_skip w) (w_cache w) tok = Some res ->
+     let t := List.length (w_callers w2) in
+     let w3 := exec verify w2 [Arrive tok; Run t] in
+     pc_of w3 t = Some (PDone res) /\ w_fetches w3 = w_fetches w2 /\ w_cache w3 = w_cache w) /\
+  (forall tok k, find_matching_key (t_kid tok) (t_alg tok) (w_cache w) = inl k -> verify k tok = true ->
+     cached_try verify (w_skip w) (w_cache w) tok = Some (ROk k)).
+Proof. exact outage_keeps_cached_keys. Qed.
+Print Assumptions C13_outage_keeps_cached_keys.
 
 (* Cancel isolation: delete every cancellation of caller t' from ANY schedule - the cache,
    the in-flight slot, all downloads, the request count and every other caller's complete
